@@ -390,9 +390,15 @@ func (p *provider) updateStatus(
 
 	modRS.Status.ActiveIn = x.IfThenElse(len(modRS.Status.ActiveIn) == 0, "0/0", modRS.Status.ActiveIn)
 
+	// the value comes from the cluster: whoever may write the status subresource decides what it looks like
+	var matchedBy int
+
 	usedBy := strings.Split(modRS.Status.ActiveIn, "/")
 	loadedBy, _ := strconv.Atoi(usedBy[0])
-	matchedBy, _ := strconv.Atoi(usedBy[1])
+
+	if len(usedBy) > 1 {
+		matchedBy, _ = strconv.Atoi(usedBy[1])
+	}
 
 	modRS.Status.ActiveIn = fmt.Sprintf("%d/%d", loadedBy+usageIncrement, matchedBy+matchIncrement)
 
@@ -407,10 +413,14 @@ func (p *provider) updateStatus(
 		return
 	}
 
-	// if there is an error, it is always of the below type
+	// an answer of the API server comes as the type below. If there is no (usable) answer - the API server
+	// could not be reached, the connection broke, the response could not be decoded - there is no status code
 	var statusErr *errors2.StatusError
+	if !errors.As(err, &statusErr) {
+		p.l.Warn().Err(err).Msgf("Failed updating RuleSet status")
 
-	errors.As(err, &statusErr)
+		return
+	}
 
 	switch statusErr.ErrStatus.Code {
 	case http.StatusNotFound:
